@@ -137,7 +137,7 @@ Definition senc (v : version) (t : token) : list N :=
 Fixpoint flag_of (k : N) (g : list token) : N :=
   match g with
   | [] => 0
-  | t :: r => (if is_ref t then 2 ^ (7 - k) else 0) + flag_of (k + 1) r
+  | t :: r => let f := flag_of (k + 1) r in if is_ref t then N.setbit f (7 - k) else f
   end.
 
 Fixpoint enc_groups (tb : token -> list N) (fuel : nat) (ts : list token) : list N :=
